@@ -442,6 +442,8 @@ def _bool_eval(f, asg):
 def run(ctx, chk, tier):
     from . import c10 as _c10
     _c10.copy_derivations(ctx, chk, rule="R11.8")   # objects derived by a shallow copy must not keep the parent's caches
+    # functools caches on the sampled classes must be coherent with every writer (a cached ratio that survives a setter feeds stale draw parameters)
+    _c10.global_state_rule(ctx, chk, rule="R11.8", modules=("scores", "group_scores"), strict=False)
     chk.rule_text = ("obligations per return path of bootstrap_sample over the built-in configuration matrix (flags, same-class source, delivered size >= 1), per path of "
                      "_sample_indices (count algebra), mirror pairs of the dual functions, dynamic-method resolution; non-trivial = term mentions source arrays or draws")
     chk.explanation = ("bootstrap_sample and _sample_indices are explored path by path for every built-in (method, stratification, smoothing) combination. Structural clauses are read "
